@@ -52,12 +52,23 @@ THEOREMS = {
     "C18_random_scorer_trace": "model of RandomScorer.score: one uniform request per plate, in plate order; output pairs plates with the answers in order",
     "C18_balanced_holdout_trace": "model of the plate-balanced hold-out: one choice request per unobserved plate, in plate order, pool = the plate's rows, k = ceil(size*fraction)",
     "C18_global_draws_refuted": "a program whose draws are served from the GLOBAL component (what the legacy Gibbs sampler does) depends on and perturbs it: concrete witness",
+    "C18_prog_eq_replay": "program equality (prog_eq_on: same requests in the same order, same outputs) for all answers => equal replay on EVERY answer list, failures included",
+    "C18_prog_eq_replay_valid": "program equality on the answers a contract admits => a successful replay whose consumed answers satisfy the contract is a replay of the other program with the same output and request trace",
+    "C18_prog_eq_exec": "program equality on a contract => equal outcome (output, requests, answers, final state) against every generator state machine whose answers satisfy the contract",
+    "C18_model_is_source_random_scorer": "the translation of the WHOLE method RandomScorer.score (a resumption program whose only request-making primitive is rng.random()) equals the hand-written random_scorer_prog (output wrapped in Ok) for all plate-key lists without duplicates (dict keys) and all answers",
+    "C18_model_is_source_random_holdout": "the translation of the WHOLE function create_random_holdout equals: ValueError (5) if fraction outside [0,1], else random_holdout_prog followed by the two Screen(...) constructions on the vector of the held rows - for ANY screen type, size and meaning of the constructions, and all answers satisfying numpy's choice contract",
+    "C18_model_is_source_balanced_holdout": "the same for the WHOLE function create_plate_balanced_holdout_set_among_masked_plates and balanced_holdout_prog, for every screen whose plates' row lists have screen.size entries in all, each a row number (true of every Screen: a row lies on exactly one plate)",
+    "C18_model_is_source_dbal_subsample": "the translation of the statement run of dbal_fast_gauss_scoring_vectorized from `n_theta_combinations = comb(...)` to `unpacked_indices = rng.choice(...)` IS dbal_subsample_prog (Leibniz equality) for all n_thetas, max_combos",
+    "C18_source_random_scorer_trace": "the trace theorem about the translated source: RandomScorer.score requests exactly one uniform per plate key, in key order, and pairs the keys with the answers in order",
+    "C18_source_balanced_holdout_trace": "the trace theorem about the translated source: the plate-balanced hold-out requests exactly one choice per unobserved plate, in plate order, pool = the plate's rows, k = ceil(size*fraction)",
 }
 ASSUMPTIONS = [
     "runtime part: numpy.random module-level functions and default_rng are looked up on the module at call time by batchie code (checked: no 'from numpy.random import <function>' in /repo/src/batchie), so patching the module attributes traps them",
     "hidden randomness that bypasses both numpy.random.<fn>/default_rng() and the global MT19937 / python random state (e.g. os.urandom, a private RandomState()) is visible only through differing outputs of the two runs",
     "hold-out model: ceil(size * fraction) is computed over exact rationals; the harness uses dyadic fractions for which the float product is exact",
     "float scores cross the wire as order keys; DBAL scores themselves are not modelled here (C05), only the sub-sampling request",
+    "source links: the hold-out theorems quantify over answers satisfying numpy's contract for rng.choice(array, k, replace=False) (k distinct elements of the array); the balanced one assumes the plates' row lists partition range(screen.size) (stated as two hypotheses; C14 proves it of Screen.plates); the random-scorer one assumes the dict's keys are distinct",
+    "source links: math.ceil(n * fraction) is the exact ceiling of n*num/den (primitive), as in the hand-written model; the DBAL link covers the sub-sampling statements only - the float arithmetic after them is not translated and stays under the runtime traps",
 ]
 EXPLANATION = (
     "Level 'other': trace conformance to a proved-explicit model plus runtime trapping.  Proved (Coq, closed under the global context): "
@@ -72,7 +83,30 @@ EXPLANATION = (
     "operation listed in the property is run twice with identically seeded generators under differently seeded global generators, "
     "outputs and request traces are compared, the global numpy / python generator states are compared before/after, and every call "
     "of numpy.random.<module function> or argument-less default_rng() is trapped with its batchie call site.  Not covered: "
-    "models other than SparseDrugCombo / SparseDrugComboInteraction, the nextflow pipelines, multi-process runs.")
+    "models other than SparseDrugCombo / SparseDrugComboInteraction, the nextflow pipelines, multi-process runs.  "
+    "COVERED BY PROOF since the source-translation links (theorems C18_model_is_source_*): RandomScorer.score, "
+    "create_random_holdout and create_plate_balanced_holdout_set_among_masked_plates (whole functions) and the triple "
+    "sub-sampling statements of dbal_fast_gauss_scoring_vectorized are re-translated from the tree under test on every run by "
+    "harness/py2gal.py into programs of the model's own resumption type (Generated/SrcRand.v; cfg monad = rprog), and the "
+    "hand-written programs are proved equal to the translations (same requests in the same order, same outputs) for all "
+    "inputs.  Meaning for C18: in a translated function a draw request can only come from a primitive that is a call on "
+    "the function's OWN generator argument; the translator is fail-closed, so a module-level numpy.random function, an "
+    "argument-less default_rng(), handing rng to another callee, or any other undeclared call inside such a function is "
+    "refused and the check reports a broken obligation.  Hence for these functions 'the request trace and the output are "
+    "a function of the inputs and the answers of the given generator only' is a theorem about the translated source (it is "
+    "a `prog`, so C18_explicit_stream / exec_is_replay / frame / two_runs_interleaved apply to it as they stand), not a "
+    "runtime observation; trace conformance and the runtime traps still run for them and remain the only tie for every "
+    "other operation (plate generators, smoothers, DBAL scorer arithmetic, policy, select_next_plate, score_chunk, "
+    "sampling, CLIs).  The links trust: the translator and Lib/PyRt.v + the rprog vocabulary at the end of "
+    "Model/RandProg.v as the meaning of the Python constructs, and exactly these primitives - requests: rng.random() "
+    "(RRandom, the double as its order key), rng.choice(a, n, replace=False) (RChoice a n false), rng.choice(n, size=k, "
+    "replace=False) (RChoiceN n k false); request-free: plates.keys() (the key list), fraction < 0 / fraction > 1 (num < 0 / "
+    "den < num), np.zeros(s.size, dtype=bool) (all-false vector), math.ceil(n * fraction) (exact ceiling of n*num/den), "
+    "np.arange(s.size) (range), s.size, s.plates, np.arange(s.size)[p.selection_vector] / p.is_observed / p.size (a plate as "
+    "(row list, observed flag); size = number of rows), selection_vector[idx] = True (numpy index-array store: IndexError "
+    "outside -n..n-1, negative indices wrap), the two Screen(...) constructions (ANY request-free function of the screen and "
+    "the selection vector, possibly raising: universally quantified in the theorems), comb(n, 3, exact=True) (binom3), "
+    "min(a, b).")
 TRUSTED = [
     "unittest.mock patching of numpy.random attributes and the stack walk that attributes trapped calls to files under /repo/src/batchie",
     "RecordingGenerator (python subclass of numpy.random.Generator sharing the seeded bit generator) does not change the stream",
